@@ -274,6 +274,12 @@ def run_conc_msg(prop, tier, seed, harness, workdir, T):
     contention (kind 11); a round that no serial order explains is a delivery that no history of the statement allows"""
     return run_conc(prop, tier, seed, harness, workdir, T, kinds=(3, 11))
 
+def run_conc_nick(prop, tier, seed, harness, workdir, T):
+    """C15 under concurrency: simultaneous renames to one nickname (with and without lock contention), a nickname given up while
+    others rename to it or claim it: a round no serial order explains has two accepted NICKs for one name, a lost user, or
+    a transfer that is not whole"""
+    return run_conc(prop, tier, seed, harness, workdir, T, kinds=(0, 14, 15))
+
 def run_conc(prop, tier, seed, harness, workdir, T, kinds=None):
     from lincheck import lin_validate
     out = {"tool_errors": [], "violations": [], "coverage": {}}
